@@ -710,6 +710,9 @@ func (st *ccState) oracleLiveness(v *vio) {
 				if c.err != nil && firstClose != nil && firstClose.invT <= at {
 					ok = true // write on a closed connection
 				}
+				if c.err != nil && st.afterReadFailure(c) {
+					ok = true // the socket's read had failed by then: a client may say so
+				}
 				if !ok {
 					v.add("T2-error", "call %d: context ended at t=%v while the call waited; it returned err=%v instead of the context's error", c.id, tc, c.err)
 				}
